@@ -14,6 +14,73 @@ use vrl::value::Secrets;
 
 mod tables;
 
+thread_local! { static LAST_PANIC_LOC: std::cell::RefCell<String> = std::cell::RefCell::new(String::new()); }
+
+/// A target that rejects chosen operations (by per-kind ordinal) without touching the wrapped event.
+#[derive(Debug)]
+struct FaultyTarget {
+    inner: TargetValue,
+    gets: std::cell::Cell<usize>,
+    inserts: usize,
+    removes: usize,
+    fail_gets: Vec<usize>,
+    fail_inserts: Vec<usize>,
+    fail_removes: Vec<usize>,
+    log: std::cell::RefCell<Vec<String>>,
+}
+
+impl vrl::compiler::SecretTarget for FaultyTarget {
+    fn get_secret(&self, key: &str) -> Option<&str> {
+        self.inner.get_secret(key)
+    }
+    fn insert_secret(&mut self, key: &str, value: &str) {
+        self.inner.insert_secret(key, value);
+    }
+    fn remove_secret(&mut self, key: &str) {
+        self.inner.remove_secret(key);
+    }
+}
+
+impl vrl::compiler::Target for FaultyTarget {
+    fn target_insert(&mut self, path: &vrl::path::OwnedTargetPath, value: Value) -> Result<(), String> {
+        let n = self.inserts;
+        self.inserts += 1;
+        if self.fail_inserts.contains(&n) {
+            self.log.borrow_mut().push(format!("insert#{n} {path} REJECTED"));
+            return Err("injected fault".into());
+        }
+        self.log.borrow_mut().push(format!("insert#{n} {path}"));
+        self.inner.target_insert(path, value)
+    }
+    fn target_get(&self, path: &vrl::path::OwnedTargetPath) -> Result<Option<&Value>, String> {
+        let n = self.gets.get();
+        self.gets.set(n + 1);
+        if self.fail_gets.contains(&n) {
+            self.log.borrow_mut().push(format!("get#{n} {path} REJECTED"));
+            return Err("injected fault".into());
+        }
+        self.log.borrow_mut().push(format!("get#{n} {path}"));
+        self.inner.target_get(path)
+    }
+    fn target_get_mut(&mut self, path: &vrl::path::OwnedTargetPath) -> Result<Option<&mut Value>, String> {
+        self.inner.target_get_mut(path)
+    }
+    fn target_remove(&mut self, path: &vrl::path::OwnedTargetPath, compact: bool) -> Result<Option<Value>, String> {
+        let n = self.removes;
+        self.removes += 1;
+        if self.fail_removes.contains(&n) {
+            self.log.borrow_mut().push(format!("remove#{n} {path} REJECTED"));
+            return Err("injected fault".into());
+        }
+        self.log.borrow_mut().push(format!("remove#{n} {path}"));
+        self.inner.target_remove(path, compact)
+    }
+}
+
+fn idx_list(spec: &J, key: &str) -> Vec<usize> {
+    spec.get("faults").and_then(|f| f.get(key)).and_then(|x| x.as_array()).map(|a| a.iter().map(|v| v.as_u64().unwrap() as usize).collect()).unwrap_or_default()
+}
+
 /// tagged JSON <-> Value (exact: integers as decimal strings, floats as bit patterns)
 pub fn from_tagged(j: &J) -> Value {
     match j {
@@ -96,7 +163,11 @@ fn run_program(spec: &J) -> J {
     let external = ExternalEnv::default();
     let compiled = panic::catch_unwind(panic::AssertUnwindSafe(|| vrl::compiler::compile_with_external(source, &fns, &external, config)));
     let compiled = match compiled {
-        Err(_) => return json!({"compiled": false, "outcome": "panic", "phase": "compile"}),
+        Err(e) => {
+            let msg = e.downcast_ref::<String>().cloned().or_else(|| e.downcast_ref::<&str>().map(|s| (*s).to_string())).unwrap_or_default();
+            let loc = LAST_PANIC_LOC.with(|l| l.borrow().clone());
+            return json!({"compiled": false, "outcome": "panic", "phase": "compile", "message": msg, "location": loc});
+        }
         Ok(Err(diags)) => {
             let msgs: Vec<String> = diags.iter().map(|d| d.message.clone()).collect();
             return json!({"compiled": false, "outcome": "compile_error", "messages": msgs});
@@ -104,16 +175,28 @@ fn run_program(spec: &J) -> J {
         Ok(Ok(r)) => r,
     };
     let program = compiled.program;
-    let mut target = TargetValue { value: event, metadata, secrets: Secrets::default() };
+    let mut target = FaultyTarget {
+        inner: TargetValue { value: event, metadata, secrets: Secrets::default() },
+        gets: std::cell::Cell::new(0),
+        inserts: 0,
+        removes: 0,
+        fail_gets: idx_list(spec, "get"),
+        fail_inserts: idx_list(spec, "insert"),
+        fail_removes: idx_list(spec, "remove"),
+        log: std::cell::RefCell::new(Vec::new()),
+    };
     let tz = TimeZone::default();
     let res = panic::catch_unwind(panic::AssertUnwindSafe(|| {
         let mut rt = Runtime::default();
         rt.resolve(&mut target, &program, &tz)
     }));
+    let oplog = target.log.borrow().clone();
+    let target = target.inner;
     let (outcome, value, message) = match res {
         Err(e) => {
             let msg = e.downcast_ref::<String>().cloned().or_else(|| e.downcast_ref::<&str>().map(|s| (*s).to_string())).unwrap_or_default();
-            ("panic", J::Null, msg)
+            let loc = LAST_PANIC_LOC.with(|l| l.borrow().clone());
+            ("panic", J::Null, format!("{msg} @ {loc}"))
         }
         Ok(Ok(v)) => ("ok", to_tagged(&v), String::new()),
         Ok(Err(Terminate::Abort(e))) => ("abort", J::Null, e.to_string()),
@@ -127,6 +210,7 @@ fn run_program(spec: &J) -> J {
         "message": message,
         "event": to_tagged(&target.value),
         "metadata": to_tagged(&target.metadata),
+        "target_ops": oplog,
         "fallible": info.fallible,
         "abortable": info.abortable,
     })
@@ -169,7 +253,10 @@ fn call_fn(spec: &J) -> J {
 
 fn main() {
     let args: Vec<String> = std::env::args().collect();
-    panic::set_hook(Box::new(|_| {}));
+    panic::set_hook(Box::new(|info| {
+        let loc = info.location().map(|l| format!("{}:{}", l.file(), l.line())).unwrap_or_default();
+        LAST_PANIC_LOC.with(|l| *l.borrow_mut() = loc);
+    }));
     match args.get(1).map(String::as_str) {
         Some("run") => {
             let spec: J = serde_json::from_str(&std::fs::read_to_string(&args[2]).unwrap()).unwrap();
